@@ -249,6 +249,7 @@ func rulesC19(r *Run) {
 
 		// R3 early stop
 		nSites += ruleYieldDiscipline(r, "R3", fn, visitors)
+		ruleWalkerAnswer(r, "R3", fn)
 		if yieldFn != nil {
 			nSites += ruleYieldDiscipline(r, "R3", yieldFn, visitors)
 		}
@@ -1491,4 +1492,70 @@ func ruleBuilderNoSilentOutcome(r *Run, rule, m string) {
 	}
 	r.Check(rule, "no-silent-drop:"+m, pS, badSilent == "", "%s", orOK(badSilent, "every path that is possible on a fresh builder takes effect or reports through setErr"))
 	r.Check(rule, "nothing-after-setErr:"+m, pA, badAfter == "", "%s", orOK(badAfter, "a reported misuse ends the call"))
+}
+
+// ruleWalkerAnswer (round-4 seed C19-8): a walker answers false only because the consumer stopped. Its callers take false for
+// "stop the walk", so a walker that answers false for an object without children ends the walk behind that object: every
+// returning path answers the literal true, the result of a visit, or a variable the path has assigned — never a result
+// variable that is still at its zero value (a sequence without actions, a group without actions).
+func ruleWalkerAnswer(r *Run, rule string, fn *Func) {
+	sig, ok := fn.Obj.Type().(*types.Signature)
+	if !ok || sig.Results().Len() != 1 {
+		return
+	}
+	if b, ok := sig.Results().At(0).Type().Underlying().(*types.Basic); !ok || b.Kind() != types.Bool {
+		return
+	}
+	fl, paths, ok2 := r.flowPaths(rule, fn)
+	if !ok2 {
+		return
+	}
+	info := fl.Info
+	label := strings.TrimPrefix(fn.Key, relPkg(fn.Pkg.PkgPath)+".")
+	bad := ""
+	var bpos token.Pos = fn.Decl.Pos()
+	for i := range paths {
+		p := &paths[i]
+		if p.Exit != ExitReturn || bad != "" {
+			continue
+		}
+		ri := -1
+		for j, e := range p.Ev {
+			if e.Kind == EvReturn && e.Depth == 0 && !e.Deferred {
+				ri = j
+			}
+		}
+		if ri < 0 {
+			continue
+		}
+		var res ast.Expr
+		if len(p.Ev[ri].Rhs) == 1 {
+			res = ast.Unparen(p.Ev[ri].Rhs[0])
+		} else if len(p.Ev[ri].Rhs) == 0 && sig.Results().At(0).Name() != "" {
+			res = &ast.Ident{Name: sig.Results().At(0).Name()}
+		}
+		id, isIdent := res.(*ast.Ident)
+		if !isIdent || id.Name == "true" || id.Name == "false" {
+			continue
+		}
+		var obj types.Object = info.ObjectOf(id)
+		if obj == nil {
+			obj = sig.Results().At(0)
+		}
+		assigned := false
+		for j := 0; j < ri; j++ {
+			e := p.Ev[j]
+			if e.Kind == EvAssign && e.Depth == 0 {
+				for _, l := range e.Lhs {
+					if lo := ObjOf(info, l); lo != nil && (lo == obj || lo.Name() == obj.Name() && lo.Pos() == obj.Pos()) {
+						assigned = true
+					}
+				}
+			}
+		}
+		if !assigned {
+			bad, bpos = label+" answers with "+id.Name+", which no statement of the path has assigned (exit guard "+ExitGuardKey(fl, p)+"): for an object without children the walker answers false, its caller takes that for the consumer's stop and the walk ends there", p.Ev[ri].Pos
+		}
+	}
+	r.Check(rule, "walker-answers-true-unless-stopped:"+label, bpos, bad == "", "%s", orOK(bad, "every path answers true, the result of a visit, or a variable it assigned"))
 }
